@@ -211,6 +211,10 @@ class SimDisk:
             raise FileNotFoundError(_errno.ENOENT, "No such file or directory", src)
         if posixpath.dirname(b) not in self.dirs or b in self.dirs:
             raise FileNotFoundError(_errno.ENOENT, "No such file or directory", dst)
+        if self.on_open_w is not None:
+            # replacing a file by renaming onto it is the moment its old content goes away:
+            # the same invariant hook as for opening it for writing
+            self.on_open_w(self, b)
         self.files[b] = self.files.pop(a)
 
     def log_digest(self):
